@@ -325,6 +325,35 @@ func (in *poolInst) apply(op string) (ok bool, viol [][2]string) {
 			return false, nil
 		}
 		in.commit([]string{name})
+	case "commitrun": // commitrun <acct>: another leader's block carries nonces c, c+1, c+2 of the account (c = its
+		// committed nonce): for each nonce the transaction this pool holds (ready or parked), else one it never saw
+		acct := poolTxs[f[1]+"0"].acct
+		base := m.ledger[acct]
+		var names []string
+		foreign := false
+		for n := base; n < base+3; n++ {
+			if m.batched[fmt.Sprintf("%s/%d", acct, n)] {
+				return false, nil
+			}
+			if name, ok := m.held[acct][n]; ok {
+				names = append(names, name)
+				continue
+			}
+			alt := fmt.Sprintf("%s%dx", f[1], n)
+			if _, ok := poolTxs[alt]; !ok {
+				return false, nil
+			}
+			if _, seen := m.admitted[alt]; seen {
+				return false, nil
+			}
+			names = append(names, alt)
+			foreign = true
+		}
+		if !foreign || len(m.held[acct]) == 0 {
+			return false, nil // covered by commitheld / commitforeign
+		}
+		in.commit(names)
+		m.tainted[acct] = true // the notification names hashes this pool cannot match to transactions it holds
 	case "tick":
 		d, _ := strconv.ParseInt(f[1], 10, 64)
 		in.now += d
@@ -599,7 +628,7 @@ var poolAlphabet = []string{
 	"recv follower local A0", "recv follower local A1", "recv follower remote A2", "recv follower local B0", "recv follower local B1",
 	"recv follower local A1x", "recv follower local A0x", "recv follower local A1,A0", "recv follower local A2,A2x",
 	"gen", "commit 0", "commit 1", "commit 0 rev", "commit 0 part", "commitforeign A0x", "commitforeign B0x",
-	"tick 100", "evict 50", "restart", "recv leader local A0,B0", "commitheld A", "commitheld B",
+	"tick 100", "evict 50", "restart", "recv leader local A0,B0", "commitheld A", "commitheld B", "commitrun A",
 }
 
 var poolAlphabetMore = []string{"recv follower local A3", "recv follower local A2x", "recv follower local B0x", "setseq 7", "recv leader remote A1,A2", "commitforeign A1x", "evict 150"}
